@@ -157,9 +157,15 @@ def history_machine(rng):
         hists.append(h)
         if rng.random() < 0.3 and nodes[p].kind == "compound":
             nodes[h].hist_default = rng.choice(pk)
+    # the history children DECLARED FIRST (document order), before the sibling subtrees - with a nested history holder inside one of
+    # those subtrees this is two history owners on one exit chain, the outer one's pseudo-state ahead of the branch that holds the inner
+    # (sixth-round seeded change C11-E indexed the history owners once, leaving a state's child loop at its first history child)
+    first = rng.random() < 0.45
+    if first:
+        nodes[p].children = [h for h in hists] + [c for c in nodes[p].children if c not in hists]
     # a nested history holder too, sometimes
     inner = [n.idx for n in nodes if n.kind == "compound" and n.idx not in (0, holder, p) and n.parent is not None]
-    if inner and rng.random() < 0.4:
+    if inner and rng.random() < (0.7 if first else 0.4):
         q = rng.choice(inner)
         hists.append(add(q, "hq", rng.choice(["hist_shallow", "hist_deep"])))
     am = AM(nodes, max_iter=6)
